@@ -119,6 +119,22 @@ func c01balStake(r *rand.Rand, mode string) (*big.Int, bool) {
 // the population of a case: identities committed to the tree, changes made afterwards, identities created afterwards
 func c01balPopulation(cs c01balCase) ([]c01balIdent, []c01balMod, []c01balIdent) {
 	r := rand.New(rand.NewSource(cs.Gen))
+	if cs.Layout == "witness" {
+		// the witness of Props/C01Balance.lean `top_stakes_only_relocated` at real size: two shards stay two shards, shard 1 holds
+		// exactly the desired number of verified identities (nobody leaves it) with stake 1e6, shard 2 (emptied and refilled: the
+		// condition is `shard >= newShardsNum`) holds the same number with stake 1000
+		pop := make([]c01balIdent, 0, cs.Total)
+		for i := 0; i < cs.Total; i++ {
+			var a common.Address
+			r.Read(a[:])
+			id := c01balIdent{addr: a, st: state.Verified, shard: 1, stake: big.NewInt(1000000)}
+			if i%2 == 1 {
+				id.shard, id.stake = 2, big.NewInt(1000)
+			}
+			pop = append(pop, id)
+		}
+		return pop, nil, nil
+	}
 	prev := cs.Prev
 	if prev < 1 {
 		prev = 1
@@ -566,6 +582,21 @@ func c01balEmit(c *hx.Ctx, cs c01balCase) error {
 			c.Fail("C01:balance-size-mismatch", fmt.Sprintf("recorded shard sizes sum to %d, %d identities were counted", sum, total), cs)
 		}
 	}
+	if cs.Layout == "witness" {
+		// what the threshold would be if the stakes of ALL validated identities were offered to appendToTop
+		var all []*big.Int
+		for _, s := range before {
+			if s.kind < 2 {
+				all = append(all, s.stake)
+			}
+		}
+		sort.SliceStable(all, func(i, j int) bool { return all[i].Cmp(all[j]) > 0 })
+		if len(all) > 100 {
+			all = all[:100]
+		}
+		c.Rep.Notes = append(c.Rep.Notes, fmt.Sprintf("witness top_stakes_only_relocated on the real balanceShards: %d verified identities, %d shards before and after, %d relocated; returned threshold %s, threshold over the 100 largest stakes of all validated identities %s (only identities being relocated are offered to appendToTop; deterministic, not a C01 violation)",
+			total, resA.num, lens[0]+lens[1]+lens[2], resA.thr, blockchain.VerifC01DiscriminationStakeThreshold(all)))
+	}
 	switch {
 	case resA.num > prev:
 		c.Hit("shards-added")
@@ -710,6 +741,9 @@ func c01balance(c *hx.Ctx) error {
 		}
 		return c01balEmit(c, wrap.Replay)
 	}
+	if err := c01balEmit(c, c01balCase{Kind: "balance", Gen: 7, Total: 6000, Prev: 2, Layout: "witness", Mix: "verified", Stakes: "witness"}); err != nil {
+		return err
+	}
 	small := []int{0, 1, 2, 3, 7, 40, 101, 250}
 	nBig := c.Scale(16, 400)
 	nSmall := c.Scale(15, 400)
@@ -723,6 +757,9 @@ func c01balance(c *hx.Ctx) error {
 			maxTotal = 12500
 		}
 		prev, total := c01balPair(c.Rng, maxTotal)
+		for try := 0; try < 6 && i%4 != 3 && common.CalculateShardsNumber(common.MinShardSize, common.MaxShardSize, total, prev) < 2; try++ {
+			prev, total = c01balPair(c.Rng, maxTotal) // three cases in four end with several shards
+		}
 		cs := c01balGen(c, total, prev, idx)
 		idx++
 		if err := c01balEmit(c, cs); err != nil {
